@@ -831,7 +831,8 @@ def option_domains(ctx, world):
 
 
 def guard_dominance(ctx, world):
-    ctx.describe("A6.dom", "in a rule maker every explicit unsupported-option guard (raise NotImplementedError / assert / check_* call) precedes every return of the maker: it cannot be bypassed by an early return")
+    ctx.describe("A6.dom", "in a rule maker every explicit unsupported-option guard (raise-only `if`, assert, check_*(...) call) lies on EVERY path that reaches a return of the maker: it cannot be bypassed by an early return nor be made conditional")
+    _guards_on_all_paths(ctx, world)
     seen = set()
     n = 0
     for e in world.table.entries:
@@ -865,6 +866,52 @@ def guard_dominance(ctx, world):
         else:
             ctx.fail("A6.dom", inst, f"{inst}:early-return", loc_of(ir.maker.mod, early), f"`{norm_text(early)[:60]}` returns before the unsupported-option guard at line {fn.body[guards[-1]].lineno}: the guard can be bypassed", "a call configuration that takes the early-return path and also satisfies the guard's condition")
     ctx.floor("A6.dom guarded makers", n, 8)
+
+
+def _guards_on_all_paths(ctx, world):
+    seen = set()
+    for e in world.table.entries:
+        if e.spec != "maker" or not world.in_numpy_scope(e):
+            continue
+        ir = world.ir(e)
+        if ir is None or ir.maker is None:
+            continue
+        # the maker and every repo helper def it calls at construction time (fft_grad -> rfft_grad ...)
+        fns = []
+        if isinstance(ir.maker.fnode, ast.FunctionDef):
+            fns.append((ir.maker.mod, ir.maker.fnode))
+        for t in deep_terms(world.ev, ir.made) if ir.made is not None else []:
+            pass
+        node = ir.maker.fnode
+        for c in ast.walk(node):
+            if isinstance(c, ast.Call):
+                r = world.repo.resolve_expr(ir.maker.mod, c.func)
+                if r is not None and r.kind == "repo" and isinstance(r.node, ast.FunctionDef) and not r.node.decorator_list:
+                    fns.append((r.mod, r.node))
+        for mod, fn in fns:
+            if id(fn) in seen:
+                continue
+            seen.add(id(fn))
+            guards = []
+            for x in ast.walk(fn):
+                if _encl_def(x) is not fn:
+                    continue
+                if isinstance(x, ast.Assert):
+                    guards.append(x)
+                elif isinstance(x, ast.Expr) and isinstance(x.value, ast.Call) and isinstance(x.value.func, ast.Name) and x.value.func.id.startswith("check_"):
+                    guards.append(x)
+            if not guards:
+                continue
+            ps = [p for p in paths(fn.body) if p[-1].kind in ("return", "fall")]
+            for g in guards:
+                inst = f"{mod.name}.{fn.name}:{norm_text(g)[:50]}"
+                missing = [p for p in ps if not any(ev.node is g for ev in p)]
+                # a path that raises before reaching the guard is not a bypass (it does not return)
+                if not missing:
+                    ctx.ob("A6.dom", inst, True, loc_of(mod, g))
+                else:
+                    conds = [f"{'' if ev.extra else 'not '}({norm_text(ev.node)[:40]})" for ev in missing[0] if ev.kind == "cond"]
+                    ctx.fail("A6.dom", inst, f"{mod.name}.{fn.name}|conditional-guard:{norm_text(g)[:60]}", loc_of(mod, g), f"the guard `{norm_text(g)[:60]}` is skipped on the returning path [{' and '.join(conds) or 'unconditional'}]: an unsupported configuration can reach the rule without being rejected", "a call configuration that takes that path and violates the guard's condition")
 
 
 def _encl_def(n):
